@@ -99,7 +99,8 @@ class BuildError(Exception):
 def translate(ll, out_c, entry='harness', instrument=False):
     from . import ll2c, llparse
     M = llparse.parse_module(open(ll).read())
-    E = ll2c.Emitter(M, ['@' + entry], [p for p in STD_BOUNDARY])
+    entries = ['@' + entry] + [h for h in ('@verif_on_acquire',) if h in M.funcs]     # hooks the runtime model calls
+    E = ll2c.Emitter(M, entries, [p for p in STD_BOUNDARY])
     E.instrument = instrument
     code = E.run()
     open(out_c, 'w').write(code)
